@@ -37,6 +37,9 @@ func genSeqSet(t *rapid.T) imap.SeqSet {
 }
 
 func genUIDSet(t *rapid.T) imap.UIDSet {
+	if rapid.IntRange(0, 5).Draw(t, "searchres") == 0 {
+		return imap.SearchRes() // "$": the saved result of the universe
+	}
 	var s imap.UIDSet
 	n := rapid.IntRange(1, 2).Draw(t, "nr")
 	for i := 0; i < n; i++ {
